@@ -428,9 +428,82 @@ def run_conditional(ctx, sf):
                 check_conditional(ctx, sf, prefix, op, n, backend)
 
 
+def _check_deletion(ctx, sf, prefix, dels, n, backend, cutoff=5):
+    """mode deletion: the remaining modes are left in exactly their reduced state (whatever the deleted modes were — vacuum,
+    measured, entangled — and in whatever order they are listed)"""
+    S = [m for m in range(n) if m not in dels]
+    rp = dict(kind="del", prefix=prefix, dels=dels, n=n, backend=backend)
+    ctx.oracle_cases += 1
+    ctx.count(f"del:{backend}:{len(dels)}:{'asc' if dels == sorted(dels) else 'desc'}", dict(p=prefix, d=dels, b=backend), True,
+              sample=dict(prefix=prefix, dels=dels, backend=backend))
+    spec0 = dict(n=n, ops=prefix)
+    spec1 = dict(n=n, ops=prefix + [dict(cls="Del", regs=list(dels), pars=[])])
+    try:
+        st0, st1 = run_state(sf, spec0, backend, cutoff), run_state(sf, spec1, backend, cutoff)
+    except Exception as e:  # noqa: BLE001
+        ctx.fail(f"raises:{backend}:Del:{type(e).__name__}", f"{backend} raised {type(e).__name__}: {e}", rp)
+        return
+    if st1.num_modes != len(S):
+        ctx.fail(f"del-modes:{backend}", f"after Del | {dels} of {n} the state has {st1.num_modes} modes", rp)
+        return
+    if backend.startswith("fock"):
+        r0, _ = spect_dm(st0, S)
+        r1, _ = spect_dm(st1, list(range(len(S))))
+        d = float(np.max(np.abs(r0 - r1)))
+        tol = 1e-8
+    else:
+        d = sim.moment_dist(restrict(moments(sf, st0, backend), S), moments(sf, st1, backend)[:3])
+        tol = 1e-9
+    if d > tol:
+        ctx.fail(f"spectator-changed:{backend}:Del", f"Del | {dels} on a {n}-mode register changed the reduced state of the remaining "
+                 f"modes {S} by {d:.3g} on {backend}", rp)
+
+
+def run_deletion(ctx, sf):
+    rng = ctx.rng
+    for it in range(ctx.n(24, 240)):
+        n = rng.choice([3, 4, 4])
+        busy = rng.sample(range(n), rng.randint(2, n))          # the other modes stay in the vacuum
+        if it % 4 == 0:          # two exactly-vacuum modes next to an entangled pair, deleted in one command
+            n = 4
+            busy = rng.sample(range(n), 2)
+        prefix = []
+        for m in busy:
+            prefix.append(dict(cls="Sgate", regs=[m], pars=[round(rng.uniform(0.1, 0.3), 3) * rng.choice([1, -1]), sim.angle(rng)]))
+            prefix.append(dict(cls="Dgate", regs=[m], pars=[round(rng.uniform(0.1, 0.4), 3), sim.angle(rng)]))
+        for _ in range(rng.randint(1, 2)):
+            a_, b_ = rng.sample(busy, 2)
+            prefix.append(dict(cls="BSgate", regs=[a_, b_], pars=[round(rng.uniform(0.3, 1.2), 3), sim.angle(rng)]))
+        if it % 3 == 0:          # a register that is no longer a ket
+            prefix.append(dict(cls="LossChannel", regs=[rng.choice(busy)], pars=[0.6]))
+        idle = [m for m in range(n) if m not in busy]
+        k = rng.randint(1, 2)
+        pool = idle if (len(idle) >= k and it % 2 == 0) else list(range(n))
+        dels = rng.sample(pool, k)
+        dels = sorted(dels) if it % 4 < 2 else sorted(dels, reverse=True)
+        if it % 4 == 0:
+            dels = sorted(idle) if it % 8 == 0 else sorted(idle, reverse=True)
+        if it % 8 == 2 and len(busy) >= 3:      # modes that were just measured (reset to vacuum) and are then deleted together
+            ms = sorted(rng.sample(busy, 2))
+            prefix.append(dict(cls="MeasureFock", regs=ms, pars=[], select=[0, 0]))
+            dels = ms
+        measured = any(o["cls"] == "MeasureFock" for o in prefix)
+        for backend in ("gaussian", "bosonic", "fock-pure", "fock-mixed"):
+            if backend == "fock-mixed" and n == 4:
+                continue
+            if measured and not backend.startswith("fock"):     # post-selected photon counting: Fock back end only
+                continue
+            try:
+                _check_deletion(ctx, sf, prefix, dels, n, backend)
+            except Exception as e:  # noqa: BLE001
+                ctx.fail(f"evaluation-raises:{backend}:Del:{type(e).__name__}", f"evaluating Del | {dels} on {backend} raised "
+                         f"{type(e).__name__}: {e}", dict(kind="del", prefix=prefix, dels=dels, n=n, backend=backend))
+
+
 def run(ctx, sf):
     sf.hbar = 2
     run_conditional(ctx, sf)
+    run_deletion(ctx, sf)
     simcorr.run_loss_corr(ctx)
     simcorr.run_fock_corr(ctx, ctx.n(220, 2200))
     simcorr.run_bos_corr(ctx, ctx.n(100, 1000))
@@ -473,6 +546,9 @@ def replay(ctx, rp):
     import strawberryfields as sf
     n0 = len(ctx.failures)
     sf.hbar = 2
+    if rp.get("kind") == "del":
+        _check_deletion(ctx, sf, rp["prefix"], rp["dels"], rp["n"], rp["backend"])
+        return len(ctx.failures) > n0
     if rp.get("kind") == "cond":
         check_conditional(ctx, sf, rp["prefix"], rp["op"], rp["n"], rp["backend"])
         return len(ctx.failures) > n0
